@@ -116,7 +116,7 @@ Print Assumptions C18_all_watchers_invoked.
    IO watches); holds for both configurations *)
 Theorem C18_all_watchers_invoked_passive : forall c env fuel s,
   NoDup (map g_id (sgws s)) ->
-  (forall v, In v (sgws s) -> g_id v < snext s) ->
+  (forall v, In v (sgws s) -> 0 <= g_id v < snext s) ->
   (forall v, In v (sgws s) -> forallb sig_quiet (env (g_cb v)) = true) ->
   (length (sgws s) + 1 < fuel)%nat ->
   exists s', dispatch_signals c env fuel s = Some s' /\
@@ -140,8 +140,8 @@ Proof. exact dispatch_covers. Qed.
 Print Assumptions C18_dispatch_covers.
 
 (* the seeded bound max_signum, raised where a slot is appended but not where one is reused:
-   SIGWINCH (28) first, a watch cancelled, then SIGSYS (31) into the freed slot -- watched,
-   recorded, never looked at *)
+   SIGWINCH (28) first (tickit_build), one tickit_run (its SIGINT watch takes a slot and frees it),
+   then SIGSYS (31) into the freed slot -- watched, recorded, never looked at *)
 Theorem C18_refuted_max_signum :
   In 31 (g_watched (g_run wmax_ops)) /\ g_max (g_run wmax_ops) = 28 /\
   dispatched true (g_run wmax_ops) [31] = [] /\ dispatched false (g_run wmax_ops) [31] = [31].
@@ -163,7 +163,7 @@ Print Assumptions C18_signal_reaches_refuted_pinned.
 (* once a watch is gone -- cancelled by any callback or by the program, or a deferred callback
    that has had its turn -- nothing invokes it any more, in this iteration or a later one;
    and cancelling a live IO or signal watch makes it gone.  Holds for both configurations. *)
-Theorem C18_cancelled_not_invoked : forall c env id fuel ops s s', dead s id ->
+Theorem C18_cancelled_not_invoked : forall c env id fuel ops s s', 0 <= id -> dead s id ->
   fold_left (sdo_op c env fuel) ops (Some s) = Some s' ->
   dead s' id /\ fires id (slog s') = fires id (slog s).
 Proof. exact gone_never_invoked. Qed.
